@@ -790,70 +790,67 @@ func TestVerifC35(t *testing.T) {
 	scripts := vScripts(4) // 1+7+49+343+2401 = 2801
 	ns := len(scripts)
 	rounds := env.Pick(1, 14)
-	var groups []*vGroup
-
-	// (1) exhaustive: every (operation, script of length <= 4) pair, tail = ok, `rounds` parameter draws
-	for r := 0; r < rounds; r++ {
-		for gi := 0; gi < ns; gi++ {
-			g := &vGroup{G: len(groups)}
+	// groups are described by (kind, round, index) and materialised (payloads!) only by the shard
+	// that runs them
+	nExh := rounds * ns
+	nLong := env.Pick(240, 4000)
+	build := func(G int) *vGroup {
+		g := &vGroup{G: G}
+		g.maxElapsed = 15 * time.Minute
+		if G < nExh {
+			// (1) exhaustive: every (operation, script of length <= 4) pair, tail = ok, `rounds` parameter draws
+			r, gi := G/ns, G%ns
 			rng := rec.RNG("exh", r, gi)
 			g.Atomic = rng.Bool()
-			g.maxElapsed = 15 * time.Minute
 			for j, op := range vOps {
-				c := vCase{Idx: len(groups)*5 + j, Op: op, Script: scripts[(gi+j*557)%ns], Tail: "O"}
+				c := vCase{Idx: G*5 + j, Op: op, Script: scripts[(gi+j*557)%ns], Tail: "O"}
 				vFillCase(&c, rng)
 				g.Cases = append(g.Cases, c)
 			}
-			groups = append(groups, g)
+		} else {
+			// (2) sampled long scripts around and beyond the retry budget, cancellation, flaky
+			// backends, tiny MaxElapsedTime ("retry at least once"), second loads
+			i := G - nExh
+			rng := rec.RNG("long", i)
+			g.Atomic = rng.Bool()
+			g.Flaky = rng.Chance(1, 8)
+			if rng.Chance(1, 5) {
+				g.maxElapsed = time.Duration(rng.Range(1, 3000)) * time.Microsecond
+			}
+			for j, op := range vOps {
+				l := rng.Range(5, 12)
+				if rng.Chance(1, 4) {
+					l = rng.Range(0, 4)
+				}
+				var sb strings.Builder
+				for k := 0; k < l; k++ {
+					sb.WriteByte("BBBPPPAAAOXNQ"[rng.Intn(13)])
+				}
+				tail := "O"
+				switch x := rng.Intn(20); {
+				case x < 7:
+					tail = "B"
+				case x < 10:
+					tail = "X"
+				case x < 11:
+					tail = "A"
+				}
+				c := vCase{Idx: G*5 + j, Op: op, Script: sb.String(), Tail: tail}
+				vFillCase(&c, rng)
+				switch rng.Intn(10) {
+				case 0:
+					c.CancelAt = -2
+				case 1, 2:
+					c.CancelAt = rng.Intn(l + 2)
+				}
+				if op == "load" && c.CancelAt == -1 {
+					c.Second = rng.Chance(1, 2)
+				}
+				g.Cases = append(g.Cases, c)
+			}
 		}
-	}
-	// (2) sampled long scripts around and beyond the retry budget, cancellation, flaky backends,
-	// tiny MaxElapsedTime ("retry at least once"), second loads
-	nLong := env.Pick(240, 4000)
-	for i := 0; i < nLong; i++ {
-		g := &vGroup{G: len(groups)}
-		rng := rec.RNG("long", i)
-		g.Atomic = rng.Bool()
-		g.Flaky = rng.Chance(1, 8)
-		g.maxElapsed = 15 * time.Minute
-		if rng.Chance(1, 5) {
-			g.maxElapsed = time.Duration(rng.Range(1, 3000)) * time.Microsecond
-		}
-		for j, op := range vOps {
-			l := rng.Range(5, 12)
-			if rng.Chance(1, 4) {
-				l = rng.Range(0, 4)
-			}
-			var sb strings.Builder
-			for k := 0; k < l; k++ {
-				sb.WriteByte("BBBPPPAAAOXNQ"[rng.Intn(13)])
-			}
-			tail := "O"
-			switch x := rng.Intn(20); {
-			case x < 7:
-				tail = "B"
-			case x < 10:
-				tail = "X"
-			case x < 11:
-				tail = "A"
-			}
-			c := vCase{Idx: len(groups)*5 + j, Op: op, Script: sb.String(), Tail: tail}
-			vFillCase(&c, rng)
-			switch rng.Intn(10) {
-			case 0:
-				c.CancelAt = -2
-			case 1, 2:
-				c.CancelAt = rng.Intn(l + 2)
-			}
-			if op == "load" && c.CancelAt == -1 {
-				c.Second = rng.Chance(1, 2)
-			}
-			g.Cases = append(g.Cases, c)
-		}
-		groups = append(groups, g)
-	}
-	for _, g := range groups {
 		g.MaxElapsed = g.maxElapsed.String()
+		return g
 	}
 
 	var rp struct {
@@ -864,28 +861,28 @@ func TestVerifC35(t *testing.T) {
 		only = rp.Group
 	}
 
-	work := make(chan *vGroup)
+	work := make(chan int)
 	var wg sync.WaitGroup
 	for w := 0; w < 6; w++ {
 		wg.Add(1)
 		go func() {
 			defer wg.Done()
-			for g := range work {
-				vRunGroup(rec, g)
+			for G := range work {
+				vRunGroup(rec, build(G))
 			}
 		}()
 	}
 	n := 0
-	for _, g := range groups {
+	for G := 0; G < nExh+nLong; G++ {
 		if only >= 0 {
-			if g.G != only {
+			if G != only {
 				continue
 			}
-		} else if !env.Mine(g.G) {
+		} else if !env.Mine(G) {
 			continue
 		}
 		n++
-		work <- g
+		work <- G
 	}
 	close(work)
 	wg.Wait()
